@@ -208,7 +208,8 @@ def check_text(col, st, text):
 X64 = "x" * 64
 PROTOS = ["", "http://", "https://", "HTTP://", "ftp://", "wss://", "//", "://", "http//", "http:/", "http:", "mailto:",
           "a+b://", X64 + "://", X64 + "x://", "ht tp://", "http:// "]
-USERS = ["", "u@", "u:p@", "u:@", ":p@", "@", "u p@"]
+USERS = ["", "u@", "u:p@", "@", "u:@", ":p@", "u p@"]
+QUICK_USERS = 4  # the quick tier uses the first four userinfo forms only
 HOSTS = ["a.com", "A.COM", "www.a.co.uk", "a.zz", "a.b.zz", "a.invalid", "localhost", "LOCALHOST", "localhost.zz",
          "localhostx.zz", "localhost.com", "foo.localhost", "127.0.0.1", "223.255.255.254", "0.0.0.0", "256.1.1.1",
          "1.2.3", "1.2.3.4.zz", "1.2.3.4.com", "a", "a.c", ".com", "a..com", "-a.com", "a-.com", "a_b.com", "a.b_c",
@@ -232,6 +233,11 @@ T_URLP = ["http://a.com", "https://b.org/p", "http://c.net/p?q=1#f", "ftp://d.fr
 T_URLN = ["a.com", "www.b.org/p", "m@c.net"]
 T_FRAG = ["/x"]
 TEXT_TOKENS = T_WORDS + T_SPACES + T_PUNCT + T_TYPO + T_MD + T_URLP + T_URLN + T_FRAG
+# sub-alphabet for the deepest level of the thorough tier (one representative per role)
+TEXT_TOKENS_DEEP = ["see", " ", "\u3000", ".", ",", "?", ")", "(", "'", ":", "\u2026", "\u00bb", "\u201d", "[", "](", "]",
+                    "http://a.com", "https://b.org/p", "http://c.net/p?q=1#f", "ftp://d.fr/", "//e.io", "http://localhost:80/",
+                    "http://u:p@g.com/x", "http://a.c", "a.com", "m@c.net", "/x"]
+assert all(t in TEXT_TOKENS for t in TEXT_TOKENS_DEEP)
 T_CLASS = {}
 for _c, _l in (("w", T_WORDS), ("s", T_SPACES), ("p", T_PUNCT), ("t", T_TYPO), ("U", T_URLP), ("n", T_URLN), ("f", T_FRAG)):
     for _t in _l:
@@ -247,9 +253,9 @@ def gen_product(pi, ui):
                 yield p + u + h + po + pa
 
 
-def gen_seq(tokens, prefix, maxlen):
+def gen_seq(tokens, prefix, maxlen, minlen=0):
     base = "".join(prefix)
-    for k in range(0, maxlen - len(prefix) + 1):
+    for k in range(max(0, minlen - len(prefix)), maxlen - len(prefix) + 1):
         for t in itertools.product(tokens, repeat=k):
             yield t, base + "".join(t)
 
@@ -337,7 +343,7 @@ def worker(job):
     kind, tier, seed = job[0], job[1], job[2]
     col = Collector("C16", tier, seed)
     st = Store()
-    npads = 1 if tier == "quick" else len(PADS)
+    npads = 1 if tier == "quick" else 4
     if kind == "prod":
         pi, ui = job[3], job[4]
         for n, s in enumerate(gen_product(pi, ui)):
@@ -346,8 +352,7 @@ def worker(job):
     elif kind == "seq":
         prefix, maxlen = job[3], job[4]
         for n, (_, s) in enumerate(gen_seq(SEQ_TOKENS, prefix, maxlen)):
-            pads = [PADS[(n + k) % len(PADS)] for k in range(1 if tier == "quick" else 2)]
-            check_string(col, st, s, pads)
+            check_string(col, st, s, [PADS[n % len(PADS)]])
     elif kind == "rurl":
         shard, n = job[3], job[4]
         rnd = random.Random(seed * 1000003 + 7919 * shard + 1)
@@ -357,9 +362,9 @@ def worker(job):
                 s = rnd.choice([" ", "\t", "\u00a0", "\n"]) + s
             check_string(col, st, s, [PADS[rnd.randrange(len(PADS))]])
     elif kind == "text":
-        prefix, maxlen = job[3], job[4]
+        prefix, maxlen, minlen, deep = job[3], job[4], job[5], job[6]
         pcls = "".join(T_CLASS[t] for t in prefix)
-        for t, s in gen_seq(TEXT_TOKENS, prefix, maxlen):
+        for t, s in gen_seq(TEXT_TOKENS_DEEP if deep else TEXT_TOKENS, prefix, maxlen, minlen):
             ys = check_text(col, st, s)
             if ys is None or ys:
                 col.nontriv(("text", pcls + "".join(T_CLASS[x] for x in t), -1 if ys is None else len(ys)))
@@ -379,15 +384,14 @@ def worker(job):
 def build_jobs(tier, seed):
     quick = tier == "quick"
     jobs = []
-    # urls_from_text: all token sequences
-    tl = 4 if quick else 5
-    if quick:
-        for t in TEXT_TOKENS:
-            jobs.append(("text", tier, seed, (t,), tl))
-    else:
-        for t in TEXT_TOKENS:
-            for u in TEXT_TOKENS:
-                jobs.append(("text", tier, seed, (t, u), tl))
+    # urls_from_text: all token sequences of <= 4 tokens; thorough: + all of exactly 5 over the sub-alphabet
+    tl = 4
+    for t in TEXT_TOKENS:
+        jobs.append(("text", tier, seed, (t,), tl, 0, False))
+    if not quick:
+        for t in TEXT_TOKENS_DEEP:
+            for u in TEXT_TOKENS_DEEP:
+                jobs.append(("text", tier, seed, (t, u), 5, 5, True))
     # is_url: free token sequences
     sl = 4 if quick else 5
     if quick:
@@ -398,27 +402,27 @@ def build_jobs(tier, seed):
             for u in SEQ_TOKENS:
                 jobs.append(("seq", tier, seed, (t, u), sl))
     # is_url: structured product
+    nu = QUICK_USERS if quick else len(USERS)
     for pi in range(len(PROTOS)):
-        for ui in range(len(USERS)):
+        for ui in range(nu):
             jobs.append(("prod", tier, seed, pi, ui))
     nr = 64
-    per_u = 700 if quick else 16000
+    per_u = 700 if quick else 8000
     per_t = 900 if quick else 20000
     for i in range(nr):
         jobs.append(("rurl", tier, seed, i, per_u))
         jobs.append(("rtext", tier, seed, i, per_t))
-    bounds = {"text_tokens": len(TEXT_TOKENS), "text_max_tokens": tl, "is_url_seq_tokens": len(SEQ_TOKENS), "is_url_seq_max_tokens": sl,
-              "is_url_product": [len(PROTOS), len(USERS), len(HOSTS), len(PORTS), len(PATHS)], "option_valuations": 16,
+    bounds = {"text_tokens": len(TEXT_TOKENS), "text_max_tokens": tl, "text_deep_tokens": 0 if quick else len(TEXT_TOKENS_DEEP),
+              "text_deep_length": 0 if quick else 5, "is_url_seq_tokens": len(SEQ_TOKENS), "is_url_seq_max_tokens": sl,
+              "is_url_product": [len(PROTOS), nu, len(HOSTS), len(PORTS), len(PATHS)], "option_valuations": 16,
               "whitespace_pads": len(PADS), "random_url_strings": nr * per_u, "random_texts": nr * per_t}
     return jobs, bounds
 
 
 def short_jobs(col, st, tier):
     """sequences shorter than the shard prefixes (handled in the parent)"""
-    k = 1 if tier == "quick" else 2
-    for n in range(k):
-        for t in itertools.product(TEXT_TOKENS, repeat=n):
-            check_text(col, st, "".join(t))
+    check_text(col, st, "")
+    for n in range(1 if tier == "quick" else 2):
         for t in itertools.product(SEQ_TOKENS, repeat=n):
             check_string(col, st, "".join(t), PADS[:2])
 
@@ -539,13 +543,14 @@ def main():
         "0-2 character mutations; each string is evaluated under all 16 option valuations: 32 monotonicity implications (8 per option), "
         "answers compared with whitespace-padded copies (8 (left, right) pads of ASCII whitespace and Unicode separators; %s), and every tld_aware acceptance "
         "judged by an independent host/TLD oracle.  urls_from_text: every concatenation of <= %d tokens of a %d-token text alphabet "
-        "(words, ASCII/Unicode spaces, ASCII and typographic punctuation, '[', '](', ']', ')', URLs with and without protocol) + %d seeded "
+        "(words, ASCII/Unicode spaces, ASCII and typographic punctuation, '[', '](', ']', ')', URLs with and without protocol)%s + %d seeded "
         "random texts with markdown links (complete, truncated, empty or protocol-less target); per text: never-raises, per yield: non-empty, "
         "no surrounding whitespace, substring, order, protocol, is_url.  distinct_nontrivial = distinct is_url inputs accepted under at least "
         "one valuation + distinct (token-class shape, number of yields) of enumerated texts that yield or raise + random texts that yield or raise"
-        % (len(PROTOS), len(USERS), len(HOSTS), len(PORTS), len(PATHS), bounds["is_url_seq_max_tokens"], len(SEQ_TOKENS),
-           bounds["random_url_strings"], "one rotating pad per string" if a.tier == "quick" else "all 8 on product strings, 2 rotating on token sequences, 1 on random strings", bounds["text_max_tokens"], len(TEXT_TOKENS),
-           bounds["random_texts"]))
+        % (tuple(bounds["is_url_product"]) + (bounds["is_url_seq_max_tokens"], len(SEQ_TOKENS),
+           bounds["random_url_strings"], "one rotating pad per string" if a.tier == "quick" else "4 rotating pads per product string, 1 per token sequence and per random string", bounds["text_max_tokens"], len(TEXT_TOKENS),
+           "" if a.tier == "quick" else " and every concatenation of exactly 5 tokens of a %d-token sub-alphabet" % len(TEXT_TOKENS_DEEP),
+           bounds["random_texts"])))
     col.dump(a.out)
 
 
